@@ -25,6 +25,8 @@ class Target:
         self.bs = blocksize
         self.nblocks = nblocks
         self.vendor, self.product, self.rev = vendor, product, rev
+        self.version = 6  # the VERSION byte and RESPONSE DATA FORMAT field of the standard INQUIRY data
+        self.response_data_format = 2
         self.inquiry_length = 96  # 36 = the minimum standard INQUIRY data, 260 the maximum (ADDITIONAL LENGTH FFh)
         self.store = {}
         self.log = []
@@ -44,7 +46,7 @@ class Target:
     def inquiry_data(self):
         f = D.FORMATS["inquiry.standard"]
         v = {k: 0 for k in f.st.names()}
-        v.update({"peripheral_qualifier": self.qualifier, "peripheral_device_type": self.devtype, "version": 6, "response_data_format": 2,
+        v.update({"peripheral_qualifier": self.qualifier, "peripheral_device_type": self.devtype, "version": self.version, "response_data_format": self.response_data_format,
                   "additional_length": self.inquiry_length - 5, "_total": min(self.inquiry_length, 96), "t10_vendor_identification": self.vendor, "product_identification": self.product,
                   "product_revision_level": self.rev, "cmdque": 1})
         # beyond byte 95: vendor specific parameters (ADDITIONAL LENGTH up to 255, i.e. up to 260 bytes)
